@@ -16,7 +16,10 @@
      root or a folder; kind[i] \in {"file","folder","other"}; children of a folder are served in
      node order, P per page, through opaque nextLinks; tail = TRUE: a folder whose child count is
      a positive multiple of P gets a trailing EMPTY page (Graph may do that).  name/cr/mo: code
-     points / dates for GraphFilter.  Sibling names are unique.
+     points / dates for GraphFilter.  Sibling names are unique.  The kind of an item is carried by
+     the PRESENCE of its facet key ("file" / "folder" / neither) alone: the facet's content (empty
+     object, childCount, mimeType, hashes, ...) and every optional member (size, webUrl, dates,
+     downloadUrl, parentReference, listItem / fields) vary per item in the concretisation.
 
    CLIENT MODEL  one action per code step; pc:
      "idle" (no call running) -> StartCall -> "ready" (client code outside _send)
